@@ -659,6 +659,22 @@ def rule_stale_swap_read(ctx: Ctx) -> None:
                     for t in st.targets:
                         if isinstance(t, ast.Attribute) and isinstance(t.value, ast.Name) and t.value.id == opv:
                             fields.setdefault(norm(t), []).append(j)
+            # element stores into a field of the operation (op.noise[k] = ...): the saved name must then be a copy, not an alias
+            for j, st in enumerate(body):
+                if isinstance(st, (ast.Assign, ast.AugAssign)):
+                    tg = st.targets if isinstance(st, ast.Assign) else [st.target]
+                    for t in tg:
+                        if isinstance(t, ast.Subscript) and isinstance(t.value, ast.Attribute) and isinstance(t.value.value, ast.Name) and t.value.value.id == opv:
+                            field = norm(t.value)
+                            writes_total += 1
+                            aliases = [s2 for s2 in body[:j] if isinstance(s2, ast.Assign) and isinstance(s2.targets[0], ast.Name) and norm(s2.value) == field]
+                            unrestored += 1
+                            ctx.fail("effect.stale-swap-read", m, st,
+                                     f"compile() stores into `{short(t, 40)}`, an element of a list owned by the circuit's operation"
+                                     + (f"; `{aliases[-1].targets[0].id} = {field}` saved only a second name for the same list, so putting it back restores "
+                                        f"the edited list" if aliases else "") +
+                                     ": after compiling, the operation carries the masked noise, and compiling the same circuit again applies different noise",
+                                     func="CompilerBase.compile", construct=f"compile: in-place store into {field}[...]")
             for field, js in fields.items():
                 writes_total += len(js)
                 saved = {st.targets[0].id for j, st in enumerate(body[: js[0]]) if isinstance(st, ast.Assign) and isinstance(st.targets[0], ast.Name)
